@@ -99,6 +99,12 @@ func allSpecs() map[string]*PropSpec {
 		NotDecided:  "that a unit-correct range is the right range (payee column estimated from the date width, fold end taken from the next token); containment in the document as a value-level fact.",
 		Rules:       []func(*Ctx){ruleUnits("module", nil), ruleUnitClamp},
 	})
+	add(&PropSpec{
+		ID:          "C17",
+		Explanation: "T5: every TokenType constant indexes a legend entry of its own kind and every value stored into semanticToken.tokenType is a constant below the legend length. T12: full, range and delta handlers encode the tokenizer's output for the text read from the document store in the same request; the array cached under a result id is exactly the array sent with that id; range requests never touch the cache and are the full token list restricted by the line filter; a delta is computed from (cached data, newly encoded data) and only when the cached id equals previousResultId. L-POS: every lexer token takes its start position before its scanner consumes input (zero-width constructor only for EOF). T15w: token kinds whose value drops delimiters (derived from the lexer) get their width adjusted in the semantic tokenizer. units: token line/col/length are UTF-16 quantities.",
+		NotDecided:  "ordering and non-overlap of the emitted sequence (run-time sortedness), unsigned wrap-around in the encoder and in edit computations, equality of the client-side rebuilt array with the full response over request histories beyond T12.",
+		Rules:       []func(*Ctx){ruleSemantic, ruleLexPos, ruleUnits("module", nil)},
+	})
 	return m
 }
 
